@@ -1,10 +1,9 @@
 (* Model of rust-miniscript `policy::concrete::Policy` as far as C18 needs it:
    `Liftable for Concrete` (src/policy/mod.rs), `check_timelocks` / `timelock_info`
    (src/policy/concrete.rs) and `TimelockInfo::combine_threshold`
-   (src/miniscript/types/extra_props.rs).  Mirrors the code as written: `And` lifts with
-   the hard-coded threshold 2 (`Threshold::new(2, subs).unwrap()`), `Or` with 1; both
-   `unwrap`s are explicit panic outcomes; `timelock_info` combines an `And` with
-   k = subs.len().  The relative probabilities of `Or` branches are dropped (no modelled
+   (src/miniscript/types/extra_props.rs).  Mirrors the code as written (after the repairs 780a529d and b588aa3a):
+   `And` lifts n-of-n, `Or` 1-of-n, the empty ones to Trivial / Unsatisfiable;
+   `timelock_info` combines an `And` with k = subs.len() and zeroes unsatisfiable nodes.  The relative probabilities of `Or` branches are dropped (no modelled
    function reads them).  Definitions only. *)
 From Coq Require Import List NArith Bool Arith.
 Import ListNotations.
@@ -49,22 +48,37 @@ Definition seq_is_height_locked (t : N) : bool := seq_is_relative t && negb (N.t
 Definition seq_is_time_locked (t : N) : bool := seq_is_relative t && N.testbit t 22.
 Definition abs_is_block_height (t : N) : bool := (t <? 500000000)%N.
 
-(* Policy::timelock_info (children are combined left to right) *)
-Fixpoint timelock_info (p : cpol) : tli :=
+(* Policy::timelock_info: alongside every TimelockInfo the code tracks whether the sub-policy is
+   satisfiable at all (`n_sat >= k`); an unsatisfiable node contributes TimelockInfo::default().
+   Children are combined left to right. *)
+Fixpoint tl_sat (p : cpol) : bool :=
   match p with
-  | CAfter t => mkTli false false (abs_is_block_height t) (negb (abs_is_block_height t)) false
-  | COlder t => mkTli (seq_is_height_locked t) (seq_is_time_locked t) false false false
-  | CAnd subs => combine_threshold (length subs) (map timelock_info subs)
-  | COr subs => combine_threshold 1 (map timelock_info subs)
-  | CThresh k subs => combine_threshold k (map timelock_info subs)
-  | _ => tli_default
+  | CUnsat => false
+  | CAnd subs => length subs <=? length (filter (fun b => b) (map tl_sat subs))
+  | COr subs => 1 <=? length (filter (fun b => b) (map tl_sat subs))
+  | CThresh k subs => k <=? length (filter (fun b => b) (map tl_sat subs))
+  | _ => true
   end.
+
+Fixpoint timelock_info (p : cpol) : tli :=
+  if tl_sat p then
+    match p with
+    | CAfter t => mkTli false false (abs_is_block_height t) (negb (abs_is_block_height t)) false
+    | COlder t => mkTli (seq_is_height_locked t) (seq_is_time_locked t) false false false
+    | CAnd subs => combine_threshold (length subs) (map timelock_info subs)
+    | COr subs => combine_threshold 1 (map timelock_info subs)
+    | CThresh k subs => combine_threshold k (map timelock_info subs)
+    | _ => tli_default
+    end
+  else tli_default.
 
 (* Policy::check_timelocks: true = Ok(()), false = Err(HeightTimelockCombination) *)
 Definition check_timelocks (p : cpol) : bool := negb (comb (timelock_info p)).
 
-(* Liftable for Concrete *)
-Inductive lres := LOk (s : spol) | LErrTimelock | LPanic (site : N).
+(* Liftable for Concrete.  check_timelocks is re-run at every level of the recursion; And lifts
+   to Threshold::new(n, subs) (Trivial when that fails, i.e. n = 0), Or to Threshold::new(1, subs)
+   (Unsatisfiable when that fails); no panic site is left. *)
+Inductive lres := LOk (s : spol) | LErrTimelock.
 
 (* subs.iter().map(lift).collect::<Result<Vec<_>, _>>(): first failure wins, left to right *)
 Definition lift_list (f : cpol -> lres) : list cpol -> lres + list spol :=
@@ -95,15 +109,15 @@ Fixpoint lift (p : cpol) : lres :=
         match lift_list lift subs with
         | inl e => e
         | inr ss =>
-            (* Threshold::new(2, semantic_subs).unwrap() *)
-            if (2 <=? length ss) then LOk (normalized (SThresh 2 ss)) else LPanic 1
+            (* match Threshold::new(n, subs) { Ok(t) => Thresh(t), Err(_) => Trivial } *)
+            if (1 <=? length ss) then LOk (normalized (SThresh (length ss) ss)) else LOk (normalized STriv)
         end
     | COr subs =>
         match lift_list lift subs with
         | inl e => e
         | inr ss =>
-            (* Threshold::new(1, semantic_subs).unwrap() *)
-            if (1 <=? length ss) then LOk (normalized (SThresh 1 ss)) else LPanic 2
+            (* match Threshold::new(1, subs) { Ok(t) => Thresh(t), Err(_) => Unsatisfiable } *)
+            if (1 <=? length ss) then LOk (normalized (SThresh 1 ss)) else LOk (normalized SUnsat)
         end
     | CThresh k subs =>
         match lift_list lift subs with
